@@ -29,11 +29,11 @@ ObsStatus(e) == IF e.ver[1] # e.ver[2] THEN "badpw" ELSE IF e.mac[1] # e.mac[2] 
 
 (* The unencrypted package.  set_password: the input file.  write_with_password: write_writer of the  *)
 (* same workbook before (ref) and after (ref2) the encrypted save.  When the two agree (always for    *)
-(* workbooks without shared strings) the package is known byte for byte.  Saving a workbook with      *)
-(* shared strings is not pure (the string count drifts, property C12), so the exact bytes of the      *)
-(* encrypted save's package cannot be observed from outside: then every part that is identical in    *)
-(* ref and ref2 must be identical in the decrypted archive, which must be exactly one zip archive of  *)
-(* the declared length (parts_ok, computed by pydec).                                                *)
+(* workbooks without shared strings) the package is known byte for byte.  If they differ (a save     *)
+(* that is not pure: on the tree this was built on the shared-string count drifted from save to      *)
+(* save, property C12) the exact bytes of the encrypted save's package cannot be observed from        *)
+(* outside: then every part that is identical in ref and ref2 must be identical in the decrypted     *)
+(* archive, which must be exactly one zip archive of the declared length (parts_ok, from pydec).     *)
 Stable(e)   == e.ref_sha = e.ref2_sha
 PkgLen(e)   == IF Stable(e) THEN e.ref_len ELSE e.declared
 PlainIsPkg(e) == IF Stable(e) THEN e.plain_sha = e.ref_sha /\ e.plain_len = e.ref_len ELSE e.parts_ok
